@@ -334,6 +334,7 @@ func ReleaseAST(ast *AST) {
 	if ast == nil {
 		return
 	}
+	forgetSpan(ast)
 
 	// Clean up all statements
 	for i := range ast.Statements {
@@ -400,6 +401,7 @@ func PutInsertStatement(stmt *InsertStatement) {
 	if stmt == nil {
 		return
 	}
+	forgetSpan(stmt)
 
 	// Clean up expressions
 	for i := range stmt.Columns {
@@ -435,6 +437,7 @@ func PutUpdateStatement(stmt *UpdateStatement) {
 	if stmt == nil {
 		return
 	}
+	forgetSpan(stmt)
 
 	// Clean up expressions
 	for i := range stmt.Assignments {
@@ -465,6 +468,7 @@ func PutDeleteStatement(stmt *DeleteStatement) {
 	if stmt == nil {
 		return
 	}
+	forgetSpan(stmt)
 
 	// Clean up expressions
 	PutExpression(stmt.Where)
@@ -488,6 +492,7 @@ func PutUpdateExpression(expr *UpdateExpression) {
 	if expr == nil {
 		return
 	}
+	forgetSpan(expr)
 
 	// Clean up expressions
 	PutExpression(expr.Column)
@@ -516,6 +521,7 @@ func PutSelectStatement(stmt *SelectStatement) {
 	if stmt == nil {
 		return
 	}
+	forgetSpan(stmt)
 
 	// Collect all expressions to clean up
 	expressions := make([]Expression, 0, len(stmt.Columns)+len(stmt.OrderBy)+3)
@@ -579,6 +585,7 @@ func PutIdentifier(ident *Identifier) {
 	if ident == nil {
 		return
 	}
+	forgetSpan(ident)
 	ident.Name = ""
 	*ident = Identifier{} // every other field back to its zero value
 	identifierPool.Put(ident)
@@ -594,6 +601,7 @@ func PutBinaryExpression(expr *BinaryExpression) {
 	if expr == nil {
 		return
 	}
+	forgetSpan(expr)
 	PutExpression(expr.Left)
 	PutExpression(expr.Right)
 	expr.Left = nil
@@ -632,6 +640,7 @@ func PutLiteralValue(lit *LiteralValue) {
 	if lit == nil {
 		return
 	}
+	forgetSpan(lit)
 
 	// Reset fields (Value is interface{}, use nil as zero value)
 	lit.Value = nil
@@ -733,6 +742,7 @@ func PutExpression(expr Expression) {
 		if current == nil {
 			continue
 		}
+		forgetSpan(current)
 
 		// Process and collect child expressions
 		switch e := current.(type) {
@@ -1012,6 +1022,7 @@ func PutFunctionCall(fc *FunctionCall) {
 	if fc == nil {
 		return
 	}
+	forgetSpan(fc)
 	for i := range fc.Arguments {
 		PutExpression(fc.Arguments[i])
 		fc.Arguments[i] = nil
@@ -1037,6 +1048,7 @@ func PutCaseExpression(ce *CaseExpression) {
 	if ce == nil {
 		return
 	}
+	forgetSpan(ce)
 	PutExpression(ce.Value)
 	ce.Value = nil
 	for i := range ce.WhenClauses {
@@ -1060,6 +1072,7 @@ func PutBetweenExpression(be *BetweenExpression) {
 	if be == nil {
 		return
 	}
+	forgetSpan(be)
 	PutExpression(be.Expr)
 	PutExpression(be.Lower)
 	PutExpression(be.Upper)
@@ -1083,6 +1096,7 @@ func PutInExpression(ie *InExpression) {
 	if ie == nil {
 		return
 	}
+	forgetSpan(ie)
 	PutExpression(ie.Expr)
 	ie.Expr = nil
 	for i := range ie.List {
@@ -1108,6 +1122,7 @@ func PutTupleExpression(te *TupleExpression) {
 	if te == nil {
 		return
 	}
+	forgetSpan(te)
 	for i := range te.Expressions {
 		PutExpression(te.Expressions[i])
 		te.Expressions[i] = nil
@@ -1130,6 +1145,7 @@ func PutArrayConstructor(ac *ArrayConstructorExpression) {
 	if ac == nil {
 		return
 	}
+	forgetSpan(ac)
 	for i := range ac.Elements {
 		PutExpression(ac.Elements[i])
 		ac.Elements[i] = nil
@@ -1150,6 +1166,7 @@ func PutSubqueryExpression(se *SubqueryExpression) {
 	if se == nil {
 		return
 	}
+	forgetSpan(se)
 	se.Subquery = nil
 	*se = SubqueryExpression{} // every other field back to its zero value
 	subqueryExprPool.Put(se)
@@ -1165,6 +1182,7 @@ func PutCastExpression(ce *CastExpression) {
 	if ce == nil {
 		return
 	}
+	forgetSpan(ce)
 	PutExpression(ce.Expr)
 	ce.Expr = nil
 	ce.Type = ""
@@ -1182,6 +1200,7 @@ func PutIntervalExpression(ie *IntervalExpression) {
 	if ie == nil {
 		return
 	}
+	forgetSpan(ie)
 	ie.Value = ""
 	*ie = IntervalExpression{} // every other field back to its zero value
 	intervalExprPool.Put(ie)
@@ -1197,6 +1216,7 @@ func PutAliasedExpression(ae *AliasedExpression) {
 	if ae == nil {
 		return
 	}
+	forgetSpan(ae)
 	PutExpression(ae.Expr)
 	ae.Expr = nil
 	ae.Alias = ""
@@ -1214,6 +1234,7 @@ func PutArraySubscriptExpression(ase *ArraySubscriptExpression) {
 	if ase == nil {
 		return
 	}
+	forgetSpan(ase)
 	// Clean up array expression
 	if ase.Array != nil {
 		PutExpression(ase.Array)
@@ -1240,6 +1261,7 @@ func PutArraySliceExpression(ase *ArraySliceExpression) {
 	if ase == nil {
 		return
 	}
+	forgetSpan(ase)
 	// Clean up array expression
 	if ase.Array != nil {
 		PutExpression(ase.Array)
